@@ -38,7 +38,7 @@ func forall(lo, hi int, f func(int) bool) bool {
 // complete (its acknowledgements are gone): it must not survive, or every later
 // CreateCheckpoint answers "in progress".
 //@ func Job.start
-//@   property C15
+//@   property C15 C12
 //@   nosafety
 //@   requires j.snapshotStore != nil && j.assembly != nil && j.config != nil
 //@   order Deploy after AbortPendingCheckpoint
@@ -259,6 +259,7 @@ func forall(lo, hi int, f func(int) bool) bool {
 //@   property C06 C15
 //@   nosafety
 //@   ensures called(AssignRanges)
+//@   atcall AssignRanges: same(arg1, ckptRanges)
 //@ func Assembly.Deploy$2
 //@   property C06 C15
 //@   nosafety
@@ -286,6 +287,15 @@ func forall(lo, hi int, f func(int) bool) bool {
 //@   property C12 C15
 //@   nosafety
 //@   atcall CreateCheckpoint: idsOfOperators(arg0, j.assembly) && idsOfRunners(arg1, j.assembly)
+
+// A job started with a savepoint URI hands it to its snapshot store (which loads it: C14 Store.LoadCheckpoint).
+// (Checked for fully specified parameters: the seven defaulting branches before the call do not
+// touch the savepoint URI and would only multiply the paths by 128.)
+//@ func New
+//@   property C14
+//@   nosafety
+//@   requires params != nil && params.HeartbeatDeadline != 0 && params.Clock != nil && params.Store != nil && params.CheckpointsPath != "" && params.SavepointsPath != "" && params.Logger != nil
+//@   atcall NewStore: arg0.SavepointURI == params.SavepointURI
 
 // A savepoint request that was folded into a checkpoint already in flight does NOT start that
 // checkpoint a second time (the source runners would inject a second barrier with the same id).
